@@ -20,6 +20,7 @@ type regoPathResultInternal struct {
 	paths         []string
 	variable      string
 	counter       *int
+	fullNodes     bool // the reached values are the node objects themselves rather than the values found in the parent
 }
 
 type traversal struct {
@@ -102,8 +103,21 @@ func generateResult(path path.PropertyPath, variable string, fetchNodes bool, ir
 func traversePath(path path.PropertyPath, variable string, fetchNodes bool, iriExpander *misc.IriExpander) []regoPathResultInternal {
 	t := newTraversal(variable)
 	var acc []regoPathResultInternal
-	for _, tr := range traverse(path, t, fetchNodes, iriExpander) {
+	traversed := traverse(path, t, fetchNodes, iriExpander)
+	// An inverse step reaches node objects while a forward step reaches the {"@id": ...} links stored in the parent. When
+	// alternatives of both kinds are aggregated, a node reached both ways must still be a single value of the set.
+	mixed := false
+	for _, tr := range traversed {
+		mixed = mixed || tr.fullNodes != traversed[0].fullNodes
+	}
+	for _, tr := range traversed {
 		effectiveRego := tr.rego
+		if mixed && tr.fullNodes {
+			effectiveRego = append(effectiveRego, fmt.Sprintf("nodes = {\"@id\": %s[\"@id\"]}", tr.variable))
+			tr.rego = effectiveRego
+			acc = append(acc, tr)
+			continue
+		}
 		effectiveRego = append(effectiveRego, fmt.Sprintf("nodes = %s", tr.variable))
 		tr.rego = effectiveRego
 		acc = append(acc, tr)
@@ -264,6 +278,7 @@ func traverseRegularProperty(property path.Property, t traversal, fetchNodes boo
 		paths:         append(t.paths, property.Iri),
 		counter:       t.counter,
 		variable:      binding,
+		fullNodes:     property.Inverse || fetchNodes,
 	}
 
 	return []regoPathResultInternal{r}
